@@ -50,6 +50,163 @@ type c08Case struct {
 	// CloseSome: the handlers of the subscriptions not marked KeepOpen close their channels once they have sent
 	// everything, whatever the causes: close notifications for some channels race the teardown that must close the rest
 	CloseSome bool `json:"close_some,omitempty"`
+	// Churn: a history of subscriptions opened, advanced, finished and cancelled on one healthy connection (channel ids
+	// come and go while other channels stay open)
+	Churn []c08ChurnOp `json:"churn,omitempty"`
+}
+
+type c08ChurnOp struct {
+	Op  string `json:"op"`            // open | tick | finish | cancel
+	Sub int    `json:"sub,omitempty"` // index into the subscriptions opened so far (taken modulo the number of live ones)
+	N   int    `json:"n,omitempty"`   // open: stream length (2-7); tick: values to release
+}
+
+// runC08Churn: every channel sees exactly the prefix of its own handler's values that was released, in order, nothing
+// from another stream, and is closed exactly when its handler finished or its context was cancelled, while subscriptions
+// come and go around it.
+func runC08Churn(c c08Case) (*Violation, string) {
+	rig, err := NewRig(RigOpts{})
+	if err != nil {
+		return nil, "rig"
+	}
+	defer rig.Close()
+	cl, err := rig.NewClient("c")
+	if err != nil {
+		return nil, "client"
+	}
+	hooks.Reset(c.Rules...)
+	defer hooks.Off()
+	type live struct {
+		p        *Pending
+		n, recvd int
+	}
+	var subs []*live
+	recv := func(l *live, k int, what string) *Violation {
+		for i := 0; i < k; i++ {
+			select {
+			case v, ok := <-l.p.Ch:
+				if !ok {
+					return violf("channel-closed-early", "channel of %s closed after %d of %d values %s", l.p.Tok, l.recvd, l.n, what)
+				}
+				if v.Tok != l.p.Tok || v.Seq != l.recvd {
+					return violf("not-a-prefix", "channel of %s received %s/%d, expected its own seq %d %s", l.p.Tok, v.Tok, v.Seq, l.recvd, what)
+				}
+				l.recvd++
+			case <-time.After(4 * time.Second):
+				return violf("stream-stalled", "channel of %s delivered %d of %d values and then nothing for 4s %s", l.p.Tok, l.recvd, l.n, what)
+			}
+		}
+		return nil
+	}
+	expectClosed := func(l *live, what string) *Violation {
+		deadline := time.After(4 * time.Second)
+		for {
+			select {
+			case v, ok := <-l.p.Ch:
+				if !ok {
+					return nil
+				}
+				if v.Tok != l.p.Tok || v.Seq != l.recvd || l.recvd >= l.n {
+					return violf("invented-values", "channel of %s delivered %s/%d after %d of its %d values %s", l.p.Tok, v.Tok, v.Seq, l.recvd, l.n, what)
+				}
+				l.recvd++
+			case <-deadline:
+				return violf("channel-never-closed", "channel of %s still open 4s %s", l.p.Tok, what)
+			}
+		}
+	}
+	quiet := func(what string) *Violation {
+		// nothing may arrive on a channel whose handler is waiting for a tick
+		for _, l := range subs {
+			select {
+			case v, ok := <-l.p.Ch:
+				if !ok {
+					return violf("channel-closed-early", "channel of %s closed after %d of %d values although its handler neither finished nor was cancelled, %s", l.p.Tok, l.recvd, l.n, what)
+				}
+				return violf("invented-values", "channel of %s delivered %s/%d although its handler is waiting (it has %d of %d), %s", l.p.Tok, v.Tok, v.Seq, l.recvd, l.n, what)
+			default:
+			}
+		}
+		return nil
+	}
+	for step, op := range c.Churn {
+		what := fmt.Sprintf("(step %d of the history, %s)", step+1, op.Op)
+		if op.Op != "open" && len(subs) == 0 {
+			continue
+		}
+		switch op.Op {
+		case "open":
+			n := op.N
+			if n < 2 {
+				n = 2
+			}
+			p := rig.Go(cl, "sub", rig.Tok("ch"), Plan{N: n, Early: 1, Pace: true})
+			select {
+			case <-p.Done:
+			case <-time.After(4 * time.Second):
+				return violf("subscribe-hangs", "a subscribing call on a healthy connection did not return within 4s %s", what), ""
+			}
+			if p.Err != nil {
+				return violf("subscribe-failed", "subscription %s failed on a healthy connection: %v", p.Tok, p.Err), ""
+			}
+			l := &live{p: p, n: n}
+			subs = append(subs, l)
+			if v := recv(l, 1, what); v != nil {
+				return v, ""
+			}
+		case "tick":
+			l := subs[op.Sub%len(subs)]
+			k := op.N
+			if k < 1 {
+				k = 1
+			}
+			if k > l.n-l.recvd-1 {
+				k = l.n - l.recvd - 1 // keeps the stream unfinished
+			}
+			if k > 0 {
+				rig.W.Tick(l.p.Tok, k)
+				if v := recv(l, k, what); v != nil {
+					return v, ""
+				}
+			}
+		case "finish":
+			i := op.Sub % len(subs)
+			l := subs[i]
+			rig.W.Tick(l.p.Tok, l.n-l.recvd)
+			if v := recv(l, l.n-l.recvd, what); v != nil {
+				return v, ""
+			}
+			if v := expectClosed(l, "after its handler sent everything and closed "+what); v != nil {
+				return v, ""
+			}
+			subs = append(subs[:i], subs[i+1:]...)
+		case "cancel":
+			i := op.Sub % len(subs)
+			l := subs[i]
+			l.p.Cancel()
+			if v := expectClosed(l, "after its context was cancelled "+what); v != nil {
+				return v, ""
+			}
+			subs = append(subs[:i], subs[i+1:]...)
+		}
+		time.Sleep(2 * time.Millisecond)
+		if v := quiet(what); v != nil {
+			return v, ""
+		}
+	}
+	for _, l := range subs {
+		rig.W.Tick(l.p.Tok, l.n-l.recvd)
+		if v := recv(l, l.n-l.recvd, "(end of the history)"); v != nil {
+			return v, ""
+		}
+		if v := expectClosed(l, "after its handler sent everything and closed (end of the history)"); v != nil {
+			return v, ""
+		}
+	}
+	if err := rig.Probe(cl, 3*time.Second); err != nil {
+		return violf("connection-wedged", "a call after the history failed: %v", err), ""
+	}
+	return nil, ""
 }
 
 type c08Stale struct {
@@ -177,6 +334,9 @@ func runC08Stale(c c08Case) (*Violation, string) {
 }
 
 func runC08(c c08Case) (*Violation, string) {
+	if len(c.Churn) > 0 {
+		return runC08Churn(c)
+	}
 	if c.Stale != nil {
 		return runC08Stale(c)
 	}
@@ -454,6 +614,29 @@ func c08NT(c c08Case) (bool, []string) {
 		cl = append(cl, "stale_owner_cancels")
 		return true, cl
 	}
+	if len(c.Churn) > 0 {
+		// non-trivial: a subscription is opened after another one has ended while a third is still open
+		cl = append(cl, "churn")
+		open, ended, reuse := 0, false, false
+		for _, op := range c.Churn {
+			switch op.Op {
+			case "open":
+				if ended && open > 0 {
+					reuse = true
+				}
+				open++
+			case "finish", "cancel":
+				if open > 0 {
+					open--
+					ended = true
+				}
+			}
+		}
+		if reuse {
+			cl = append(cl, "churn_open_after_end_with_others_open")
+		}
+		return reuse, cl
+	}
 	for _, x := range c.Causes {
 		cl = append(cl, "cause_"+x)
 	}
@@ -501,13 +684,13 @@ func contains(s []string, x string) bool {
 	return false
 }
 
-const c08Rule = "1-3 paced subscriptions (length 0-40, early sends, k values delivered before the causes fire, consumer reading or stalled) x termination causes {handler closes, context cancelled, connection cut FIN/RST, client closed} alone and in racing pairs x positioned faults on the server->client frames of the stream (response, values, close notification; before/header/mid/last/after) x connection cuts triggered from inside the client's yield points (resp.found, chan.sink, closechans.begin, reconnect.begin, frame.read) with the library goroutine held for 2 ms. histories across a reconnect: 1-4 subscriptions on the first connection, a reset, 1-4 new subscriptions on the re-established connection, then the owners of a subset of the first generation cancel their contexts (the second generation must deliver every later value and close with its handler). Non-trivial = two causes racing, or a fault between two values; distinct by descriptor hash"
+const c08Rule = "1-3 paced subscriptions (length 0-40, early sends, k values delivered before the causes fire, consumer reading or stalled) x termination causes {handler closes, context cancelled, connection cut FIN/RST, client closed} alone and in racing pairs x positioned faults on the server->client frames of the stream (response, values, close notification; before/header/mid/last/after) x connection cuts triggered from inside the client's yield points (resp.found, chan.sink, closechans.begin, reconnect.begin, frame.read) with the library goroutine held for 2 ms. histories across a reconnect: 1-4 subscriptions on the first connection, a reset, 1-4 new subscriptions on the re-established connection, then the owners of a subset of the first generation cancel their contexts (the second generation must deliver every later value and close with its handler); churn histories on one healthy connection (open / advance / finish / cancel, 4-14 steps): every channel sees exactly the released prefix of its own stream and closes exactly when its handler finished or its context was cancelled while channel ids come and go around it. Non-trivial = a subscription opened after another ended while a third is open, or two causes racing, or a fault between two values; distinct by descriptor hash"
 
 func TestC08(t *testing.T) {
 	rec := NewRec("C08", c08Rule)
 	defer rec.Finish(t)
 	rec.EnableJournal()
-	rec.RequireClass("stale_owner_cancels", "handler_ignores_ctx", "cause_handler_close", "cause_ctx_cancel", "cause_cut_rst", "cause_client_close", "cause_fault", "racing_causes", "fault_between_values", "stalled_consumer", "trigger_resp.found")
+	rec.RequireClass("churn_open_after_end_with_others_open", "stale_owner_cancels", "handler_ignores_ctx", "cause_handler_close", "cause_ctx_cancel", "cause_cut_rst", "cause_client_close", "cause_fault", "racing_causes", "fault_between_values", "stalled_consumer", "trigger_resp.found")
 	run := func(ft failer, c c08Case) {
 		nt, cl := c08NT(c)
 		rec.Run(ft, c, nt, cl, func() *Violation {
@@ -615,6 +798,27 @@ func TestC08(t *testing.T) {
 				}
 			}
 		}
+	})
+	t.Run("churn", func(t *testing.T) {
+		run(t, c08Case{Churn: []c08ChurnOp{{Op: "open", N: 4}, {Op: "open", N: 5}, {Op: "finish", Sub: 0}, {Op: "open", N: 3}, {Op: "tick", Sub: 0, N: 2}, {Op: "tick", Sub: 1, N: 1}, {Op: "finish", Sub: 1}, {Op: "finish", Sub: 0}}})
+		run(t, c08Case{Churn: []c08ChurnOp{{Op: "open", N: 3}, {Op: "open", N: 3}, {Op: "open", N: 6}, {Op: "cancel", Sub: 1}, {Op: "open", N: 4}, {Op: "tick", Sub: 1, N: 3}, {Op: "cancel", Sub: 0}, {Op: "open", N: 2}, {Op: "open", N: 2}, {Op: "finish", Sub: 2}, {Op: "tick", Sub: 0, N: 1}}})
+	})
+	rec.Rapid(t, "rapid-churn", func(rt *rapid.T) {
+		var c c08Case
+		n := rapid.IntRange(4, 14).Draw(rt, "nops")
+		for i := 0; i < n; i++ {
+			switch rapid.IntRange(0, 6).Draw(rt, "op") {
+			case 0, 1, 2:
+				c.Churn = append(c.Churn, c08ChurnOp{Op: "open", N: rapid.IntRange(2, 7).Draw(rt, "len")})
+			case 3:
+				c.Churn = append(c.Churn, c08ChurnOp{Op: "tick", Sub: rapid.IntRange(0, 5).Draw(rt, "sub"), N: rapid.IntRange(1, 3).Draw(rt, "k")})
+			case 4, 5:
+				c.Churn = append(c.Churn, c08ChurnOp{Op: "finish", Sub: rapid.IntRange(0, 5).Draw(rt, "sub")})
+			default:
+				c.Churn = append(c.Churn, c08ChurnOp{Op: "cancel", Sub: rapid.IntRange(0, 5).Draw(rt, "sub")})
+			}
+		}
+		run(rt, c)
 	})
 	rec.Rapid(t, "rapid", func(rt *rapid.T) {
 		var c c08Case
